@@ -19,7 +19,8 @@ import (
 //
 //	cfg <as s_retry> picks=<p,p,…|->     p: ok | oknd (no Done) | notready (a never-connected SubConn, with Done)
 //	                                        | nosc (ErrNoSubConnAvailable, a new picker follows) | hang (ErrNoSubConnAvailable,
-//	                                        no new picker) | drop<code> (status error)
+//	                                        no new picker) | drop<code> (status error) | notready! / nosc! (as notready / nosc, and
+//	                                        the RPC's context is cancelled while Pick runs)
 //	new <buf|d> | send <n> | close | recv | hdr | cancel
 //	    -> <result> t=… ev=<server events> pk=<P<id>:<kind>,D<id>:<code>,…|->  [pending=<result of the op that was blocked>]
 //
@@ -33,6 +34,7 @@ type pdState struct {
 	events      []string
 	needRefresh bool
 	signal      func()
+	cancelRPC   func() // cancels the RPC's context (pick kinds ending in "!": the context ends while Pick runs)
 	bal         *pdBalancer
 }
 
@@ -155,6 +157,13 @@ func (p *pdPicker) Pick(balancer.PickInfo) (balancer.PickResult, error) {
 		return balancer.PickResult{SubConn: p.b.sc, Done: done}, nil
 	case kind == "oknd":
 		return balancer.PickResult{SubConn: p.b.sc}, nil
+	case kind == "notready!":
+		// the RPC's context ends during this Pick, and the SubConn handed out is not READY
+		st.cancelRPC()
+		return balancer.PickResult{SubConn: p.b.idleSC, Done: done}, nil
+	case kind == "nosc!":
+		st.cancelRPC()
+		return balancer.PickResult{}, balancer.ErrNoSubConnAvailable
 	case kind == "notready":
 		st.needRefresh = true
 		st.signal()
@@ -214,6 +223,7 @@ func (c *pickdoneC) Op(f []string) string {
 		}
 		c.env = newRetryEnv(parseScript(m["script"]), retryServiceConfig(m, pdName), dopts, m["kind"], copts)
 		c.st.signal = c.env.srv.signal
+		c.st.cancelRPC = c.env.cancel
 		c.env.extraReact = func() bool {
 			c.st.mu.Lock()
 			need := c.st.needRefresh
